@@ -43,7 +43,15 @@ func runC01parser(t *testing.T, run *mc.Run) int {
 				res = "1"
 			}
 			g := auditgen.Simple(typ, 1700002000+int64(si*10+ri), seq, s.id, s.pid, res)
-			sc = append(sc, pItem{sess: si, kind: typ, line: g.Recs[0].Line})
+			line := g.Recs[0].Line
+			// decoration that must not matter: the LOGIN record names the OTHER session as the one its process
+			// came from, the session ends with a record from a replaced sshd binary
+			other := sessions[(si+1)%len(sessions)]
+			line = strings.Replace(line, "old-ses=4294967295", "old-ses="+other.id, 1)
+			if typ == "CRED_DISP" {
+				line = strings.Replace(line, `exe="/usr/sbin/sshd"`, `exe="/usr/sbin/sshd (deleted)"`, 1)
+			}
+			sc = append(sc, pItem{sess: si, kind: typ, line: line})
 		}
 		scripts = append(scripts, sc)
 		scripts = append(scripts, []pItem{{sess: si, kind: "login"}})
